@@ -47,3 +47,8 @@ func (defaultLocker *DefaultLocker) VerifQueueLen() int {
 func (defaultLocker *DefaultLocker) VerifMu() *sync.Mutex {
 	return &defaultLocker.mu
 }
+
+// The error values SaveMeta / DeleteMetadata return for a transaction that does not exist (their constructors are unexported);
+// the bulk harness (C18) hands them to the real handlers' error mapping.
+func VerifErrSaveMetaNotFound() error   { return newErrSaveMetadataTransactionNotFound() }
+func VerifErrDeleteMetaNotFound() error { return newErrDeleteMetadataTransactionNotFound() }
